@@ -91,7 +91,18 @@ def gen_ov(st, tier):
         assign = [d.randrange(Rn)] * N
     ncp = c.choice([0, 1, 2, 3])
     cps = sorted(set(d.randint(1, N) for _ in range(ncp))) + [N]
+    shape2d = None
+    if dim == 6 and c.random() < 0.5:
+        # two-dimensional quantities (gas x layer profiles), in C or Fortran
+        # memory order
+        shape2d = [c.choice([[2, 3], [3, 2]]), c.random() < 0.5]
+    nan_comp = None
+    if dim >= 3 and c.random() < 0.3:
+        # one component is undefined (NaN) in every sample, as a bin outside
+        # the model's range is: the other components must be unaffected
+        nan_comp = c.randrange(dim)
     cfg = {'part': 'ov', 'R': Rn, 'N': N, 'dim': dim, 'values': vals,
+           'nan_component': nan_comp, 'shape2d': shape2d,
            'weight_family': fam, 'weights': gen_weights(d, N, fam),
            'assign': assign, 'checkpoints': sorted(set(cps)),
            'reuse_buffer': c.random() < 0.4}
@@ -116,6 +127,9 @@ def exec_ov(case, keep_text=False):
     X = np.array(cfg['values'], dtype=float)
     if dim == 0:
         X = X[:, 0]
+    elif cfg.get('nan_component') is not None:
+        X[:, cfg['nan_component']] = np.nan
+        out.bump('probes', 'nan_component_in_every_sample')
     # as Optimizer.sample_parameters hands them over: never exactly zero
     W = np.array(cfg['weights'], dtype=float) + 1e-300
     assign = list(cfg['assign'])
@@ -127,6 +141,10 @@ def exec_ov(case, keep_text=False):
         out.violations.append(Violation(cls, key, detail))
 
     world = SimWorld(Rn, perms=perms, log=log, cap=50 + 10 * len(cps))
+    sh2 = cfg.get('shape2d')
+    if sh2 is not None:
+        out.bump('probes', 'two_dimensional_values_%s_order'
+                 % ('fortran' if sh2[1] else 'c'))
 
     def body(r):
         from taurex.util.math import OnlineVariance
@@ -138,7 +156,10 @@ def exec_ov(case, keep_text=False):
             for i in range(done, cp):
                 if assign[i] % Rn != r:
                     continue
-                if dim and cfg.get('reuse_buffer'):
+                if dim and sh2 is not None:
+                    v = np.array(X[i]).reshape(sh2[0])
+                    ov.update(np.asfortranarray(v) if sh2[1] else v, W[i])
+                elif dim and cfg.get('reuse_buffer'):
                     buf[...] = X[i]
                     ov.update(buf, W[i])
                 elif dim:
@@ -193,9 +214,12 @@ def exec_ov(case, keep_text=False):
             wn = w / w.max()
             mean = np.tensordot(wn, x, axes=(0, 0)) / wn.sum()
             var = np.tensordot(wn, (x - mean) ** 2, axes=(0, 0)) / wn.sum()
-            scale = np.sqrt(np.max(x ** 2, axis=0))
-            msg = _var_close(np.asarray(got, dtype=float), np.asarray(var),
-                             np.asarray(scale), 'ov')
+            with np.errstate(invalid='ignore'):
+                scale = np.sqrt(np.max(x ** 2, axis=0))
+            gota = np.asarray(got, dtype=float)
+            if sh2 is not None and gota.shape == tuple(sh2[0]):
+                gota = gota.reshape(-1)       # logical (C) order
+            msg = _var_close(gota, np.asarray(var), np.asarray(scale), 'ov')
             if msg:
                 viol('std-mismatch', 'ov:checkpoint%d' % min(k, 1),
                      '%s at checkpoint %d of %s (R=%d, per-rank counts %s)'
